@@ -249,6 +249,16 @@ def fclose(a, b, rtol=1e-9, atol=0.0):
     return abs(a - b) <= max(atol, rtol * max(1.0, abs(a), abs(b)))
 
 
+def row_equilibrated(M):
+    """each row divided by its largest magnitude (elimination with partial pivoting is insensitive to row scaling, so the
+    forward error of a square solve is governed by the condition number of the row-equilibrated matrix)"""
+    out = []
+    for row in M:
+        m = max([abs(x) for x in row if x == x] + [0.0])
+        out.append([x / m for x in row] if m > 0.0 and m != float("inf") else list(row))
+    return out
+
+
 def cond_inf(M):
     """infinity-norm condition number of a square float matrix (list of rows) by Gauss-Jordan with partial pivoting;
     inf when singular or not finite.  Used only to scale comparison tolerances (forward error ~ cond * epsilon)."""
